@@ -291,6 +291,26 @@ func Spec(t *rapid.T, o SpecOpts) (map[string]any, *SpecInfo) {
 			g.info.Ops = append(g.info.Ops, oi)
 		}
 		paths[tpl] = item
+		// a twin template that differs only in the names of its placeholders, served by other methods: path
+		// overlap is a per-method notion, so the two do not overlap
+		if len(holders) > 0 && UniformIndex(t, 4, "twinpath") == 0 {
+			twin, twinHolders := tpl, make([]string, len(holders))
+			for k, h := range holders {
+				twinHolders[k] = h + "2"
+				twin = strings.Replace(twin, "{"+h+"}", "{"+h+"2}", 1)
+			}
+			if _, dup := paths[twin]; !dup {
+				g.info.Placeholders[twin] = twinHolders
+				twinItem := map[string]any{}
+				for j := nm; j < 4 && j < nm+1+UniformIndex(t, 2, "twinmethods"); j++ {
+					m := methods[(start+j)%4]
+					op, oi := g.operation(twin, m, twinHolders, false)
+					twinItem[m] = op
+					g.info.Ops = append(g.info.Ops, oi)
+				}
+				paths[twin] = twinItem
+			}
+		}
 	}
 	doc["paths"] = paths
 	return doc, g.info
